@@ -16,7 +16,10 @@ MANIFEST = dict(
          "with size= the requested count and no global-state numpy.random call exists outside the documented fallback constructors; "
          "cumulative sampler: normalised trapezoid table aligned with x[1:] and inverse interpolation roles; Cholesky samplers: "
          "M = cholesky(cov), result = (M.r + mean) transposed, constructor consults the normalised copies only; index selection maps "
-         "unique -> replace=False on the passed/seeded generator.",
+         "unique -> replace=False on the passed/seeded generator on every returning path (tests on imax/nrand the flags do not decide are "
+         "explored both ways); box containment proper: for zero-width, proper and full boxes the longitude term (and the latitude term in "
+         "the coordinate cos(90+dec)) lies between the requested limits for every deviate, decided exactly for forms affine in the deviate "
+         "and the limits (vertex extrema over the box classes, selections and modulo operations resolved per class).",
     note="Not decided: distributional correctness, containment numerically. Trusted: numpy Generator/RandomState APIs, scipy "
          "cumulative_trapezoid, sympy normaliser.",
     technique="static analysis: abstract interpretation over a symbolic term domain (draws as uninterpreted deviates), who-may-call RNG discipline, AST provenance rules",
@@ -29,7 +32,7 @@ GLOBAL_RNG_OK = {"RandomState", "default_rng", "Generator", "SeedSequence"}
 
 # rules that keep their verdict however the code is laid out (decided by term equality, effect analysis or dominance over
 # resolved calls); every other rule of this check is a template rule (vcheck.core.Check.obt)
-SEMANTIC = ('R19.cap', 'R19.chol', 'R19.gen', 'R19.ind')
+SEMANTIC = ('R19.cap', 'R19.chol', 'R19.gen', 'R19.ind', 'R19.box::randsphere::ra-inside-box', 'R19.box::randsphere::dec-inside-box')
 
 
 def run(chk):
@@ -66,6 +69,17 @@ def randsphere(chk, repo):
         ra, dec = res
         eq, _ = symx.equal(ra, r0 + (r1 - r0) * U1)
         chk.ob("R19.box", "randsphere::ra-uniform-in-range", eq, fi.where(), "ra = lo + (hi-lo)*U (inside the requested range)")
+        # containment proper, whatever the formula: for every box inside [0,360] (zero-width and full circle included) and every
+        # deviate the longitude lies between the requested limits
+        res_c = box_containment(ra, r0, r1, 0, 360, U1)
+        bad = [(bc, why) for bc, okc, why in res_c if okc is False]
+        und = [(bc, why) for bc, okc, why in res_c if okc is None]
+        if bad:
+            chk.ob("R19.box", "randsphere::ra-inside-box", False, fi.where(), "the longitude must lie inside [ra_range[0], ra_range[1]] for every box: for %s %s" % (bad[0][0].text, bad[0][1]))
+        elif und:
+            chk.ob("R19.box", "randsphere::ra-inside-box", None, fi.where(), "containment of the longitude not decided for %s: %s" % (und[0][0].text, und[0][1]))
+        else:
+            chk.ob("R19.box", "randsphere::ra-inside-box", True, fi.where(), "for zero-width, proper and full-circle boxes and every deviate in [0,1) the longitude %s lies between the requested limits" % ra)
         d2r = sp.pi / 180
         lo, hi = sp.cos((90 + d1) * d2r), sp.cos((90 + d0) * d2r)
         v = lo + (hi - lo) * U2
@@ -74,6 +88,31 @@ def randsphere(chk, repo):
         eq, d = symx.equal(dec, ref)
         chk.ob("R19.box", "randsphere::dec-uniform-in-sin", eq, fi.where(),
                "dec = acos(clip(v,-1,1)) - 90 deg with v uniform between cos(90+dec_hi) and cos(90+dec_lo): uniform in sin(dec) inside the box%s" % ("" if eq else " (difference %s)" % str(d)[:160]))
+        # the same for the latitude: d_lo <= dec <= d_hi  <=>  cos(90+d_hi) <= clip(x) <= cos(90+d_lo) when dec = acos(clip(x)) - 90 deg
+        # (acos decreases on [-1,1]); the box is re-parametrised by its limits c = cos(90 deg + d) in [-1,1], in which x must be
+        # affine in the deviate and lie between the limits for zero-height, proper and full-range boxes
+        okd, whyd = None, "the latitude is not acos(...) - 90 deg of a term over the box limits: %s" % str(dec)[:120]
+        try:
+            y = sp.expand((dec + 90) * sp.pi / 180)
+            if isinstance(y, sp.acos):
+                x = y.args[0]
+                if fname(x) == "CLIP" and len(x.args) == 3 and x.args[1] == -1 and x.args[2] == 1:
+                    x = x.args[0]
+                c_hi, c_lo = symx.symbols("c_at_dec_lo", "c_at_dec_hi")
+                x = x.subs({d0: 180 * sp.acos(c_hi) / sp.pi - 90, d1: 180 * sp.acos(c_lo) / sp.pi - 90}, simultaneous=True)
+                x = x.replace(lambda e: isinstance(e, (sp.cos, sp.sin)), lambda e: e.func(sp.expand(e.args[0])))
+                res_c = box_containment(x, c_lo, c_hi, -1, 1, U2)
+                bad = [(bc, why) for bc, okc, why in res_c if okc is False]
+                und = [(bc, why) for bc, okc, why in res_c if okc is None]
+                if bad:
+                    okd, whyd = False, "in the coordinate c = cos(90 deg + dec), for %s %s" % (bad[0][0].text, bad[0][1])
+                elif und:
+                    okd, whyd = None, "containment of the latitude not decided for %s: %s" % (und[0][0].text, und[0][1])
+                else:
+                    okd, whyd = True, "cos(90 deg + dec) = %s lies between cos(90+dec_hi) and cos(90+dec_lo) for zero-height, proper and full-range boxes" % x
+        except Exception as ex:      # sympy could not normalise the term: no verdict
+            okd, whyd = None, "latitude term not normalised (%s)" % type(ex).__name__
+        chk.ob("R19.box", "randsphere::dec-inside-box", okd, fi.where(), "the latitude must lie inside [dec_range[0], dec_range[1]] for every box: %s" % whyd)
     else:
         chk.ob("R19.box", "randsphere::returns-pair", False, fi.where(), "got %r" % (res,))
     # xyz system goes through eq2xyz of the same ra/dec
@@ -97,6 +136,203 @@ def randsphere(chk, repo):
     chk.ob("R19.box", "_check_range::outside-allowed-rejected", ok, cr.where(), "ranges outside the allowed interval are rejected")
     calls = {norm(x) for x in walk_no_nested(fi.node) if isinstance(x, ast.Call) and call_name(x) == "_check_range"}
     chk.ob("R19.box", "randsphere::allowed-intervals", calls == {"_check_range(ra_range, [0.0, 360.0])", "_check_range(dec_range, [-90.0, 90.0])"}, fi.where(), "allowed intervals [0,360] and [-90,90] (%s)" % sorted(calls))
+
+
+# --------------------------------------------------------------------------
+# containment of a sampled coordinate in its box, for every box and every deviate
+#
+# The coordinate is a term t(lo, hi, U) over the requested limits and one uniform deviate U in [0,1).  The boxes of the property
+# (allowed interval [LO,HI]) are split into the three classes its quantifier names: zero width (lo = hi = a), proper
+# (lo = a, hi = a + w, 0 < w < HI-LO) and the full interval (lo = LO, hi = HI).  Each class is a product of simplices in (a, w)
+# and U with some faces left out (w = 0, U = 1, the seam value a = HI).  On such a domain a form that is affine in U and jointly
+# affine in (a, w) takes its extrema at the vertices, and the set where an extremum is attained is a union of product faces whose
+# vertices all attain it; this decides `>= 0` and `> 0` of such forms exactly, for all points of the class at once.  With it the
+# selections (Piecewise), Max/Min/Abs and the modulo operations of the term are resolved per class; the resolved term must be such a
+# form and lie between lo and hi.  A modulo that stays unresolved over an argument sweeping a whole period covers the whole
+# circle.  Anything else has no verdict.
+# --------------------------------------------------------------------------
+
+class _Undecided(Exception):
+    pass
+
+
+def _with(d, k, v):
+    d = dict(d)
+    d[k] = sp.Integer(v)
+    return d
+
+
+class _BoxClass:
+    def __init__(self, name, text, lo, hi, pverts, excluded, U):
+        self.name, self.text, self.lo, self.hi, self.U = name, text, lo, hi, U
+        self.params = sorted({k for v in pverts for k in v}, key=str)
+        self.pverts = pverts
+        self.verts = [_with(v, U, u) for v in pverts for u in (0, 1)]
+        self.excluded = excluded            # predicates on a vertex: the vertex lies on a face that is not part of the class
+        import itertools
+        psub = [c for n in range(1, len(pverts) + 1) for c in itertools.combinations(range(len(pverts)), n)]
+        self.faces = [[_with(pverts[i], U, u) for i in ps for u in us] for ps in psub for us in ((0,), (1,), (0, 1))]
+
+    def form(self, e):
+        """e when it is affine in U and jointly affine in the box parameters (else _Undecided)"""
+        e = sp.expand(e)
+        try:
+            p = sp.Poly(e, self.U, *self.params)
+        except Exception:
+            raise _Undecided("not a polynomial form: %s" % str(e)[:80])
+        if p.free_symbols_in_domain or any(m[0] > 1 or sum(m[1:]) > 1 for m in p.monoms()):
+            raise _Undecided("not affine in the deviate and the box limits: %s" % str(e)[:80])
+        return e
+
+    def values(self, e):
+        e = self.form(e)
+        vals = [sp.nsimplify(e.subs(v, simultaneous=True)) for v in self.verts]
+        if not all(x.is_number and x.is_real for x in vals):
+            raise _Undecided("vertex value of %s" % str(e)[:80])
+        return vals
+
+    def nonneg(self, e):
+        return min(self.values(e)) >= 0
+
+    def negative_somewhere(self, e):
+        """the form is negative at points of the class (its closure has a negative vertex value and the class is dense in it)"""
+        return min(self.values(e)) < 0
+
+    def positive(self, e):
+        """e > 0 at every point of the class: the minimum over the closure is positive, or it is zero and only attained on faces
+        that are not part of the class"""
+        vals = self.values(e)
+        m = min(vals)
+        if m != 0:
+            return m > 0
+        e = self.form(e)
+        for face in self.faces:
+            if all(sp.nsimplify(e.subs(v, simultaneous=True)) == 0 for v in face):
+                if not any(all(ex(v) for v in face) for ex in self.excluded):
+                    return False
+        return True
+
+    def zero(self, e):
+        return all(x == 0 for x in self.values(e))
+
+    # ---- conditions and terms of the class ----------------------------------
+    def decide(self, c):
+        if c is sp.true or c is sp.false:
+            return bool(c)
+        if isinstance(c, sp.And):
+            vals = [self.decide(a) for a in c.args]
+            return all(vals)
+        if isinstance(c, sp.Or):
+            return any([self.decide(a) for a in c.args])
+        if isinstance(c, sp.Not):
+            return not self.decide(c.args[0])
+        if isinstance(c, sp.Rel):
+            d = self.resolve(c.lhs - c.rhs)
+            if isinstance(c, (sp.Eq, sp.Ne)):
+                if self.zero(d):
+                    r = True
+                elif self.positive(d) or self.positive(-d):
+                    r = False
+                else:
+                    raise _Undecided("%s holds for some boxes of the class only" % c)
+                return r if isinstance(c, sp.Eq) else (not r)
+            if isinstance(c, (sp.StrictLessThan, sp.LessThan)):
+                d = -d
+            if isinstance(c, (sp.StrictGreaterThan, sp.StrictLessThan)):
+                if self.positive(d):
+                    return True
+                if self.nonneg(-d):
+                    return False
+            else:
+                if self.nonneg(d):
+                    return True
+                if self.positive(-d):
+                    return False
+            raise _Undecided("%s holds for some boxes of the class only" % c)
+        raise _Undecided("condition %s" % c)
+
+    def resolve(self, e):
+        """e with the selections, extrema, absolute values and modulo operations decided for this class"""
+        e = sp.sympify(e)
+        if isinstance(e, sp.Piecewise):
+            for v, c in e.args:
+                if self.decide(c):
+                    return self.resolve(v)
+            raise _Undecided("no arm of %s selected" % str(e)[:80])
+        if not e.args:
+            return e
+        args = [self.resolve(a) for a in e.args]
+        if isinstance(e, sp.Mod):
+            x, m = args
+            if not (m.is_number and m.is_positive):
+                raise _Undecided("modulus %s" % m)
+            if x.is_number:
+                return sp.Mod(x, m)
+            try:
+                k = sp.floor(min(self.values(x)) / m)
+                y = sp.expand(x - k * m)
+                if self.positive(m - y):
+                    return y                 # the argument stays inside one period: the operation is a shift
+            except _Undecided:
+                pass
+            return sp.Mod(x, m, evaluate=False)
+        if isinstance(e, (sp.Max, sp.Min)):
+            sign = 1 if isinstance(e, sp.Max) else -1
+            for a in args:
+                if all(a is b or self.nonneg(sign * (a - b)) for b in args):
+                    return a
+            raise _Undecided("%s is not the same argument over the class" % str(e)[:80])
+        if isinstance(e, sp.Abs):
+            if self.nonneg(args[0]):
+                return args[0]
+            if self.nonneg(-args[0]):
+                return -args[0]
+            raise _Undecided("sign of %s" % str(args[0])[:80])
+        return e.func(*args)
+
+    def contains(self, t):
+        """(True / False / None, reason) for: t lies in [lo, hi] at every point of the class"""
+        try:
+            r = self.resolve(t)
+            if isinstance(r, sp.Mod):
+                x, m = r.args
+                c1 = self.form(x).coeff(self.U)
+                if self.nonneg(c1 - m) or self.nonneg(-c1 - m):
+                    # the argument sweeps at least one period as U runs over [0,1): every value of [0, m) is taken
+                    if self.nonneg(-self.lo) and self.nonneg(self.hi - m):
+                        return True, ""
+                    return False, "the coordinate is %s with U in [0,1), which sweeps a whole period: every value in [0,%s) is produced" % (r, m)
+                return None, "modulo operation not resolved: %s" % r
+            for what, d in (("below the lower limit", r - self.lo), ("above the upper limit", self.hi - r)):
+                if self.negative_somewhere(d):
+                    e = self.form(d)
+                    wit = [v for v in self.verts if sp.nsimplify(e.subs(v, simultaneous=True)) < 0][0]
+                    return False, "the coordinate is %s, which is %s (towards %s)" % (r, what, ", ".join("%s=%s" % (k, wit[k]) for k in sorted(wit, key=str)))
+            return True, ""
+        except _Undecided as ex:
+            return None, str(ex)
+
+
+def box_classes(lo, hi, LO, HI, U):
+    """the three classes of boxes [lo, hi] inside the allowed interval [LO, HI], as substitutions for (lo, hi)"""
+    a, wd = sp.Symbol("a", real=True), sp.Symbol("w", real=True)
+    LO, HI = sp.sympify(LO), sp.sympify(HI)
+    at_u1 = lambda v: v[U] == 1
+    return [
+        ({lo: a, hi: a}, _BoxClass("zero-width", "a box of zero width [a, a]", a, a, [{a: LO}, {a: HI}], [at_u1, lambda v: v[a] == HI], U)),
+        ({lo: a, hi: a + wd}, _BoxClass("proper", "a box [a, a+w] with 0 < w < %s" % (HI - LO), a, a + wd,
+                                        [{a: LO, wd: 0}, {a: HI, wd: 0}, {a: LO, wd: HI - LO}], [at_u1, lambda v: v[wd] == 0, lambda v: v[wd] == HI - LO], U)),
+        ({lo: LO, hi: HI}, _BoxClass("full", "the full interval [%s, %s]" % (LO, HI), LO, HI, [{}], [at_u1], U)),
+    ]
+
+
+def box_containment(t, lo, hi, LO, HI, U):
+    """[(class, True/False/None, reason)]"""
+    out = []
+    for sub, bc in box_classes(lo, hi, LO, HI, U):
+        ok, why = bc.contains(sp.sympify(t).subs(sub, simultaneous=True))
+        out.append((bc, ok, why))
+    return out
 
 
 # --------------------------------------------------------------------------
@@ -622,6 +858,10 @@ class Mini:
         self.state = {}                     # "self.attr" -> value, shared by the methods of one object
         self.calls = []                     # qualified names of the helpers followed
         self.square = set()                 # input symbols known to be square matrices
+        # path exploration (mini_paths): a comparison of symbolic input terms that the flags do not decide is a free atom; one
+        # truth value per atom and path (the same atom, or its negation, met again on the path keeps its value)
+        self.forced = None                  # atom -> bool chosen for this path; None: no exploration (undecided tests have no verdict)
+        self.trail = []                     # atoms first met on this path, in order, with the value taken
 
     # ---- ranks / broadcasting -------------------------------------------
     def rank(self, t):
@@ -843,7 +1083,7 @@ class Mini:
                 return (a == b) if isinstance(op, ast.Eq) else (a != b)
             if isinstance(op, (ast.Eq, ast.NotEq)) and isinstance(a, sp.Basic) and isinstance(b, sp.Basic) and a.is_number and b.is_number:
                 return bool(a == b) if isinstance(op, ast.Eq) else bool(a != b)
-            return None
+            return self.free_atom(op, a, b)
         try:
             v = self.ev(t, env, fi)
         except NoVerdict:
@@ -853,6 +1093,26 @@ class Mini:
         if isinstance(v, sp.Basic) and v.is_number:
             return bool(v != 0)
         return None
+
+    def free_atom(self, op, a, b):
+        """truth of a comparison of two input terms on the explored path (None when paths are not explored or the operands are
+        not arithmetic terms over the inputs)"""
+        if self.forced is None or not (isinstance(a, sp.Basic) and isinstance(b, sp.Basic)) or type(op) not in REL_OF:
+            return None
+        if any(str(s_).startswith("'") or s_ in (NONE_T, sp.Symbol("True"), sp.Symbol("False")) for s_ in (a.free_symbols | b.free_symbols)):
+            return None
+        try:
+            d = sp.expand(a - b)
+            rel = REL_OF[type(op)](d, 0)
+        except Exception:
+            return None
+        if rel is sp.true or rel is sp.false:
+            return bool(rel)
+        key, pol = _atom_key(rel)
+        if key not in self.forced:
+            self.forced[key] = True
+            self.trail.append(key)
+        return self.forced[key] if pol else (not self.forced[key])
 
     # ---- expressions -----------------------------------------------------------
     def resolve(self, node, env, fi):
@@ -1074,6 +1334,52 @@ class Mini:
         if isinstance(callee, sp.Basic):
             return APPLY(callee, *([term(a) for a in args] + self.kw_terms(c, env, fi)))
         raise NoVerdict("call `%s` at %s" % (norm(c)[:60], fi.where(c)))
+
+
+REL_OF = {ast.Lt: sp.Lt, ast.LtE: sp.Le, ast.Gt: sp.Gt, ast.GtE: sp.Ge, ast.Eq: sp.Eq, ast.NotEq: sp.Ne}
+
+
+def _atom_key(rel):
+    """(canonical text of the atom, polarity): a relation and its negation share the atom"""
+    pos, neg = rel.canonical, sp.Not(rel).canonical
+    a, b = str(pos), str(neg)
+    return (a, True) if a <= b else (b, False)
+
+
+def mini_paths(repo, q, bind, state=None, ranks=None, limit=32):
+    """every path of the package function q that the literal flags leave open: [(atoms assumed {text: bool}, value or NoVerdict)];
+    paths that end in raise are left out (the request is refused).  Undecided comparisons of input terms are explored both ways,
+    consistently along a path; anything else undecided ends that path without a verdict."""
+    out = []
+    work = [{}]
+    while work:
+        forced = work.pop()
+        if len(out) + len(work) > limit:
+            return [({}, NoVerdict("more than %d paths" % limit))]
+        mv = Mini(repo, ranks)
+        mv.state.update(state or {})
+        mv.forced = dict(forced)
+        raised = False
+        try:
+            v = mv.run(repo.func(q), bind)
+        except NoVerdict as e:
+            v = e
+        except _Raised:
+            raised = True
+        # the alternatives: the first k new atoms as taken, atom k the other way
+        taken = dict(forced)
+        for key in mv.trail:
+            alt = dict(taken)
+            alt[key] = False
+            work.append(alt)
+            taken[key] = True
+        if not raised:
+            out.append(({k: mv.forced[k] for k in mv.forced}, v))
+    return out
+
+
+def _path_text(atoms):
+    return " and ".join(("%s" % k) if v else ("not (%s)" % k) for k, v in sorted(atoms.items())) or "every input"
 
 
 def mini_run(repo, q, bind, state=None, ranks=None):
@@ -1393,33 +1699,52 @@ def _choice_args(t):
     return out
 
 
+def _choice_paths(repo, q, bind):
+    """[(path text, choice arguments or None, value)] of every returning path of q"""
+    out = []
+    for atoms, v in mini_paths(repo, q, bind):
+        ch = applications(v, "M_choice") if isinstance(v, sp.Basic) else []
+        out.append((_path_text(atoms), _choice_args(ch[0]) if len(ch) == 1 and v == ch[0] else None, v))
+    return out
+
+
 def indices(chk, repo):
+    """the verdicts hold for EVERY returning path: a test on the inputs that the literal flag values do not decide (`nrand > imax`,
+    `imax < 0`, ...) is explored both ways, paths ending in raise are refusals and constrain nothing"""
     R = "R19.ind"
     fi = repo.func(RA + "random_indices")
     chk.analysed_unit(fi.qualname)
     w = fi.where()
     imax, nrand, gen, seed = sp.Symbol("imax"), sp.Symbol("nrand"), sp.Symbol("rng"), sp.Symbol("seed")
-    shapes = []
+    allp = []
+    unrec = False
     for uq in (True, False):
-        v, _, _ = mini_run(repo, fi.qualname, {"imax": imax, "nrand": nrand, "unique": uq, "rng": gen, "seed": seed})
-        ch = applications(v, "M_choice") if isinstance(v, sp.Basic) else []
-        a = _choice_args(ch[0]) if len(ch) == 1 and v == ch[0] else None
-        shapes.append(a)
-        if a is None:
-            chk.ob(R, "%s[unique=%s]::replace" % (fi.qualname, uq), None, w, "the result is not one <generator>.choice(...) application: %s" % (v,))
+        paths = _choice_paths(repo, fi.qualname, {"imax": imax, "nrand": nrand, "unique": uq, "rng": gen, "seed": seed})
+        allp += paths
+        want = sp.Symbol(str(not uq))
+        wrong = [(t, a) for t, a, _ in paths if a is not None and a.get("replace", sp.Symbol("True")) != want]
+        lost = [(t, v) for t, a, v in paths if a is None]
+        key = "%s[unique=%s]::replace" % (fi.qualname, uq)
+        if wrong:
+            t, a = wrong[0]
+            chk.ob(R, key, False, w, "unique=%s must draw with replace=%s whatever imax and nrand are: on the path where %s the call is choice(..., replace=%s)%s"
+                   % (uq, not uq, t, a.get("replace", "the default True"),
+                      " (a request for more distinct indices than the range holds is answered with repeats instead of being refused)" if uq else ""))
+        elif lost or not paths:
+            unrec = True
+            chk.ob(R, key, None, w, "the result is not one <generator>.choice(...) application%s" % (": on the path where %s: %s" % lost[0] if lost else ": no returning path"))
         else:
-            chk.ob(R, "%s[unique=%s]::replace" % (fi.qualname, uq), a.get("replace", sp.Symbol("True")) == sp.Symbol(str(not uq)), w,
-                   "unique=%s draws with replace=%s (found %s)" % (uq, not uq, a.get("replace", "the default True")))
-    if any(a is None for a in shapes):
+            chk.ob(R, key, True, w, "unique=%s draws with replace=%s on each of the %d returning path(s)" % (uq, not uq, len(paths)))
+    if unrec:
         chk.ob(R, fi.qualname + "::choice-on-generator", None, w, "choice application not recognised")
     else:
-        ok = all(a["recv"] == gen and a.get("a") == imax and a.get("size") == nrand and "p" not in a for a in shapes)
-        chk.ob(R, fi.qualname + "::choice-on-generator", ok, w, "indices are rng.choice(imax, size=nrand, replace=replace): range [0,imax), requested count")
-    v, _, _ = mini_run(repo, fi.qualname, {"imax": imax, "nrand": nrand, "unique": True, "rng": None, "seed": seed})
-    ch = applications(v, "M_choice") if isinstance(v, sp.Basic) else []
-    if len(ch) != 1:
-        chk.ob(R, fi.qualname + "::seeded-fallback", None, w, "choice application not recognised: %s" % (v,))
+        bad = [(t, a) for t, a, _ in allp if not (a["recv"] == gen and a.get("a") == imax and a.get("size") == nrand and "p" not in a)]
+        chk.ob(R, fi.qualname + "::choice-on-generator", not bad, w, "indices are rng.choice(imax, size=nrand, replace=replace): range [0,imax), requested count%s"
+               % ("" if not bad else " (where %s: %s)" % (bad[0][0], {k: str(v) for k, v in bad[0][1].items()})))
+    paths = _choice_paths(repo, fi.qualname, {"imax": imax, "nrand": nrand, "unique": True, "rng": None, "seed": seed})
+    if not paths or any(not (isinstance(v, sp.Basic) and len(applications(v, "M_choice")) == 1) for _, _, v in paths):
+        chk.ob(R, fi.qualname + "::seeded-fallback", None, w, "choice application not recognised: %s" % ([str(v)[:160] for _, _, v in paths],))
     else:
-        recv = ch[0].args[0]
-        ok = recv in (Fn("numpy.random.default_rng")(seed), Fn("numpy.random.default_rng")(Fn("KW_seed")(seed)))
-        chk.ob(R, fi.qualname + "::seeded-fallback", ok, w, "without a generator a new one is seeded from seed= (%s)" % recv)
+        seeded = (Fn("numpy.random.default_rng")(seed), Fn("numpy.random.default_rng")(Fn("KW_seed")(seed)))
+        recvs = [applications(v, "M_choice")[0].args[0] for _, _, v in paths]
+        chk.ob(R, fi.qualname + "::seeded-fallback", all(r in seeded for r in recvs), w, "without a generator a new one is seeded from seed= (%s)" % recvs[0])
